@@ -242,8 +242,10 @@ func init() {
 		sa := ex.sliceArr(st, src, 0, SBV(8))
 		da := ex.sliceArr(st, p, 0, SBV(8))
 		ex.setSliceArr(st, p, 0, CopyArr(da, p.Off, sa, BV(0, 64), n))
-		// remaining content shifts to the front (abstracting the read offset)
-		shifted := CopyArr(sa, BV(0, 64), sa, n, BVSub(b.Len, n))
+		// remaining content shifts to the front (abstracting the read offset);
+		// the destination is the array as it is now (p may live in the same array)
+		cur := ex.sliceArr(st, src, 0, SBV(8))
+		shifted := CopyArr(cur, BV(0, 64), sa, n, BVSub(b.Len, n))
 		ex.setSliceArr(st, src, 0, shifted)
 		ex.store(st, args[0], BufV{b.ID, BVSub(b.Len, n)}, pc, pos)
 		isNil := Or(Neq(b.Len, BV(0, 64)), Eq(p.Len, BV(0, 64)))
@@ -316,7 +318,8 @@ func init() {
 				// case split on "enough bytes buffered" at the array level, so that the
 				// copied ranges have syntactic lengths
 				ex.setSliceArr(st, p, 0, Ite(full, CopyArr(da, p.Off, sa, BV(0, 64), p.Len), CopyArr(da, p.Off, sa, BV(0, 64), b.Len)))
-				ex.setSliceArr(st, src, 0, Ite(full, CopyArr(sa, BV(0, 64), sa, p.Len, BVSub(b.Len, p.Len)), sa))
+				cur := ex.sliceArr(st, src, 0, SBV(8))
+				ex.setSliceArr(st, src, 0, Ite(full, CopyArr(cur, BV(0, 64), sa, p.Len, BVSub(b.Len, p.Len)), cur))
 				ex.store(st, bp, BufV{b.ID, BVSub(b.Len, n)}, pc, pos)
 				return callResult{val: TupleV{[]Value{IntV{n}, ex.errValue(full, "readfull")}}, st: st}
 			}
